@@ -4,6 +4,12 @@
 #[verifier::external_body]
 pub struct Prov { _p: u8 }
 
+/// "the word (b0, b1) was written to word address `word` of device `dev`" - observable also when the handle that did the
+/// write (a clone inside a temporary EepromRange) is gone
+pub uninterp spec fn word_written(dev: int, word: u16, b0: u8, b1: u8) -> bool;
+/// high byte of the i-th word of a byte string (an odd trailing byte is padded with zero)
+pub open spec fn word_hi(buf: Seq<u8>, i: int) -> u8 { if 2 * i + 1 < buf.len() { buf[2 * i + 1] } else { 0u8 } }
+
 impl Clone for Prov {
     #[verifier::external_body]
     fn clone(&self) -> (r: Self)
@@ -16,11 +22,14 @@ impl Prov {
     pub open spec fn byte(&self, addr: int) -> u8 { self.mem()[addr] }
     pub uninterp spec fn chunk(&self) -> int;
     pub uninterp spec fn wlog(&self) -> Seq<(u16, u8, u8)>;
+    /// the device this handle talks to (clones of a provider share the one device)
+    pub uninterp spec fn dev(&self) -> int;
 
     pub open spec fn wf(&self) -> bool { self.chunk() == 4 || self.chunk() == 8 }
 
     pub open spec fn mem_eq(&self, o: &Prov) -> bool {
         &&& self.chunk() == o.chunk()
+        &&& self.dev() == o.dev()
         &&& self.wlog() == o.wlog()
         &&& self.mem() == o.mem()
     }
@@ -39,6 +48,8 @@ impl Prov {
         requires old(self).wf()
         ensures
             final(self).chunk() == old(self).chunk(),
+            final(self).dev() == old(self).dev(),
+            r is Ok ==> word_written(old(self).dev(), start_word, data[0], data[1]),
             r is Ok ==> final(self).wlog() == old(self).wlog().push((start_word, data[0], data[1]))
                 && final(self).mem() == old(self).mem().insert(2 * start_word, data[0]).insert(2 * start_word + 1, data[1]),
             r is Err ==> final(self).wlog() == old(self).wlog() && final(self).mem() == old(self).mem(),
